@@ -78,6 +78,19 @@ def gen_lp(rng, i):
     lp = {'c': c, 'l': l, 'u': u, 'rows': rows, 'b': b, 'cType': ct, 'mapping': mp}
     sp = {'id': 'lp%d' % i, 'seed': 'lp%d' % i, 'lp': lp, 'opts': {}}
     r = rng.random()
+    if r >= 0.88:
+        # every variable pinned (l == u), e.g. an interval inside a fixed window: feasible iff the pinned point satisfies rows and flags
+        for j in range(n):
+            l[j] = u[j] = x0[j]
+        k_ = rng.random()
+        if k_ < 0.4 and rows:
+            q = rng.randrange(len(rows))
+            if rows[q][0]:
+                b[q] = b[q] + (1.0 if ct[q] in 'LSN' else -1.0)       # the pinned point violates this row
+        elif k_ < 0.7 and bools:
+            j = rng.choice(bools)
+            l[j] = u[j] = 0.5                                         # a flag pinned at a fraction
+        return sp
     if r < 0.25:
         # open-ended bounds (e.g. a purchase-only contract without capacity limit); the cost keeps the problem bounded
         for j in rng.sample([j for j in range(n) if j not in bools], min(2, n - len(bools))):
@@ -126,6 +139,9 @@ def run(ctx):
         solvers = [{}, {'solver': 'SCIPY'}, {'solver': 'CLARABEL'}, {'solver': 'SCIP'}, {'interface': 'ortools'}]
     for sp in specs:
         sp['opts']['solvers'] = solvers
+    for sp in specs[1::4]:
+        # robust target: the returned point is feasible and the reported value is that of the problem's own cost vector
+        sp['opts']['solvers'] = solvers + [{'robust': 2}]
     for sp in specs[::3]:
         # the relaxed problem is solved first on the same object; the regular solve afterwards must still be a MIP solve
         sp['opts']['solvers'] = [{'make_soft_problem': True}] + solvers
@@ -223,7 +239,7 @@ def run(ctx):
             if r['solve'] == 'optimal':
                 scale = 1 + abs(r['value']) + max([abs(v) for v in prob['b']] + [0])
                 eps = 2e-6 * scale
-                if r.get('duals') and (not ismip or r['kw'].get('make_soft_problem')) and not openended:
+                if r.get('duals') and (not ismip or r['kw'].get('make_soft_problem')) and not openended and not r['kw'].get('robust'):
                     y = duals_to_y(prob, r['duals'])
                     have_y = True
                 else:
